@@ -85,6 +85,68 @@ fn must_be_missing(key: &str) -> bool {
     })
 }
 
+/// A key in which some segment carries several indices (`a[0][1]`): the grammar has one index per
+/// segment, so the lookup may be missing or may descend through every index, but it must not
+/// stop at a shorter path. Returns the value of the full descent (None inside = nothing there), or
+/// None if the key is not of this form.
+fn resolve_multi(doc: &DObj, key: &str) -> Option<Option<DocVal>> {
+    let mut cur: Option<DocVal> = None;
+    let mut multi = false;
+    let mut dead = false;
+    for (n, seg) in key.split('.').enumerate() {
+        let (name, mut rest) = match seg.find('[') {
+            Some(i) => (&seg[..i], &seg[i..]),
+            None => (seg, ""),
+        };
+        if name.is_empty() || name.contains(']') {
+            return None;
+        }
+        let mut idx = vec![];
+        while !rest.is_empty() {
+            if !rest.starts_with('[') {
+                return None;
+            }
+            let close = rest.find(']')?;
+            let digits = &rest[1..close];
+            if digits.is_empty() || digits.len() > 9 || !digits.bytes().all(|b| b.is_ascii_digit()) {
+                return None;
+            }
+            idx.push(digits.parse::<usize>().ok()?);
+            rest = &rest[close + 1..];
+        }
+        if idx.len() > 1 {
+            multi = true;
+        }
+        if dead {
+            continue;
+        }
+        let next = if n == 0 {
+            doc.get_val(name).cloned()
+        } else {
+            match &cur {
+                Some(DocVal::Obj(o)) => o.get_val(name).cloned(),
+                _ => None,
+            }
+        };
+        let mut v = next;
+        for i in idx {
+            v = match v {
+                Some(DocVal::Arr(a)) => a.0.get(i).cloned(),
+                _ => None,
+            };
+        }
+        if v.is_none() {
+            dead = true;
+        }
+        cur = v;
+    }
+    if multi {
+        Some(if dead { None } else { cur })
+    } else {
+        None
+    }
+}
+
 fn judge_find(case: &Case) -> Outcome {
     let doc = &case.docs[0];
     let norm = doc.normalised();
@@ -125,6 +187,21 @@ fn judge_find(case: &Case) -> Outcome {
                         doc.show(),
                         g.show()
                     ));
+                }
+            }
+            if exp.is_err() {
+                let base = if normalised { &norm } else { doc };
+                if let (Some(full), Some(g)) = (resolve_multi(base, key), &got) {
+                    let ok = matches!(&full, Some(e) if same(&sorted(e), &sorted(g)));
+                    if !ok {
+                        return Outcome::Violation(format!(
+                            "find({key:?}) on {name} of {} returned {} but descending through every index reaches {}: a shorter path was used",
+                            doc.show(),
+                            g.show(),
+                            full.as_ref().map(|e| e.show()).unwrap_or("nothing".into()),
+                        ));
+                    }
+                    labels.push("multi_index_key_resolved_or_missing");
                 }
             }
             if let Ok(exp) = exp {
@@ -333,7 +410,8 @@ pub fn paths(max_len: usize) -> Vec<String> {
 fn odd_keys() -> Vec<String> {
     [
         "", ".", "..", "a.", ".a", "a..b", "a[", "a]", "[", "]", "[]", "a[]", "a[+1]", "a[-1]", "a[ 1]", "a[1 ]",
-        "a[18446744073709551616]", "a[18446744073709551615]", "a[0][1]", "a[0]x", "a[[0]]", "[0]", "a.[0]",
+        "a[18446744073709551616]", "a[18446744073709551615]", "a[0][1]", "a[0][0]", "a[1][0]", "a[0][0][0]", "a.a[0][0]",
+        "a[0][0].a", "b[1][0]", "b[0][0]", "a.b[0][1]", "a[0][17]", "a[0]x", "a[[0]]", "[0]", "a.[0]",
         "a[0].", "a[0]..b", "é", "a.é", "é[0]", "a[٣]", "a[0x1]", "a[1e0]", "a.b.c.d.e.f.g.h", "a[00]", "a[01]",
         "a b", " a", "a ", "a\u{0}", "\u{0}", "\u{1}", "a[last]", "a[1x]", "a[x]", "b[]", "b[last]", "b[0x0]", "a.b[]",
         "a.b[x]", "b[99999999999999999999999]", "a[*]", "a[0,1]", "a[0:1]", "b[-0]",
@@ -512,7 +590,7 @@ pub fn run(tier: &str, seed: u64) -> i32 {
         &mut report,
         5,
         n,
-        || (prop_oneof!["[abc\\[\\]\\.0-9]{0,10}", "[abc\\[\\]\\.0-9+\\- é\u{0}]{0,12}", "\\PC{0,8}"], any::<u16>()),
+        || (prop_oneof!["[abc\\[\\]\\.0-9]{0,10}", "[ab](\\[[01]\\]){2,3}(\\.[ab](\\[[01]\\]){0,2})?", "[abc\\[\\]\\.0-9+\\- é\u{0}]{0,12}", "\\PC{0,8}"], any::<u16>()),
         |(key, di): &(String, u16)| {
             let mut c = Case::new("c10.find");
             c.docs = vec![some_docs[(*di as usize * some_docs.len()) >> 16].clone()];
